@@ -575,7 +575,8 @@ fn skip_uvlc(reader: &mut BitReader) -> Option<()> {
             return None;
         }
     }
-    if leading_zeros > 0 {
+    // uvlc(): with 32 leading zeros the value is 2^32 - 1 and no value bits follow.
+    if leading_zeros > 0 && leading_zeros < 32 {
         reader.skip_bits(leading_zeros)?;
     }
     Some(())
